@@ -106,3 +106,38 @@ Definition all_with_methods_propagate : bool := forallb (fun e => snd e) propaga
 Definition seven_layers_customize : bool :=
   forallb (fun n => existsb (fun e => String.eqb (fst e) n) with_table)
           ["with_retry"; "with_map"; "with_flat_map"; "with_poll"; "with_timeout"; "with_throttle"; "with_cancel_on_shutdown"].
+
+(* ---- BoundCallable.__init__ as attribute dictionaries ---------------------------------------------
+   update_wrapper(self, fn) copies fn.__dict__ onto self (dict.update); the private attributes
+   _BoundCallable__executor / _BoundCallable__fn are plain entries of the same dictionary.  Whether they
+   are written before or after the copy is a fact about the source (Gen/BindGen.v). *)
+Definition attrs := list (string * nat).
+Fixpoint lookup (d : attrs) (k : string) : option nat :=
+  match d with [] => None | (k', v) :: r => if String.eqb k k' then Some v else lookup r k end.
+Definition set_attr (d : attrs) (k : string) (v : nat) : attrs := (k, v) :: d.
+(* dict.update: entries of src override *)
+Definition update (d src : attrs) : attrs := (src ++ d)%list.
+Definition k_exec : string := "_BoundCallable__executor".
+Definition k_fn : string := "_BoundCallable__fn".
+Definition construct (after : bool) (e fn : nat) (fn_dict : attrs) : attrs :=
+  if after then set_attr (set_attr (update [] fn_dict) k_exec e) k_fn fn
+  else update (set_attr (set_attr [] k_exec e) k_fn fn) fn_dict.
+(* what calling the object does: submit <its fn attribute> to <its executor attribute> *)
+Definition call_attrs (d : attrs) : option (nat * nat) :=
+  match lookup d k_exec, lookup d k_fn with Some e, Some f => Some (e, f) | _, _ => None end.
+
+Lemma lookup_app d1 d2 k : lookup (d1 ++ d2)%list k = match lookup d1 k with Some v => Some v | None => lookup d2 k end.
+Proof. induction d1 as [|[k' v] r IH]; simpl; [reflexivity|]. destruct (String.eqb k k'); auto. Qed.
+
+(* with the private attributes written after the copy, the callable submits ITS function to ITS executor
+   whatever attributes the wrapped callable carries - in particular when it is itself a bound callable *)
+Theorem construct_after_own_target e fn fn_dict : call_attrs (construct true e fn fn_dict) = Some (e, fn).
+Proof. reflexivity. Qed.
+(* written before the copy, a wrapped callable that is itself bound (to e', fn') takes over *)
+Theorem construct_before_clobbered e fn e' fn' :
+  call_attrs (construct false e fn (construct false e' fn' [])) = Some (e', fn').
+Proof. reflexivity. Qed.
+Theorem nested_bind_own_target e fn e' fn' :
+  private_attrs_after_wrapper = true ->
+  call_attrs (construct private_attrs_after_wrapper e fn (construct private_attrs_after_wrapper e' fn' [])) = Some (e, fn).
+Proof. intros ->. reflexivity. Qed.
